@@ -241,3 +241,208 @@ Proof.
     + intros t' r0. unfold upd. destruct (N.eqb_spec t' t) as [->|_]; [|apply H].
       destruct w, r; discriminate.
 Qed.
+
+Lemma get_latest_ok ks e val mr : get_latest ks e = GOk val mr -> In (mr, val) (k_vers ks).
+Proof.
+  unfold get_latest. destruct e; try discriminate.
+  destruct (newest (k_vers ks)) as [[r v]|] eqn:E; [|discriminate].
+  destruct (beqb v tombstone); [discriminate|]. intros [= <- <-]. apply newest_In, E.
+Qed.
+
+Lemma create_decide_rev w k v rev old : pc_rev (create_decide w k v rev old) = Some rev.
+Proof. unfold create_decide. destruct (snd old && (fst old <? rev)); reflexivity. Qed.
+
+Lemma create_decide_commit w k v rev old r : commit_rev (create_decide w k v rev old) = Some r -> r = rev.
+Proof. unfold create_decide. destruct (snd old && (fst old <? rev)); simpl; [intros [= <-]; reflexivity|discriminate]. Qed.
+
+Lemma create_decide_local d w k v rev old : pc_local d (create_decide w k v rev old).
+Proof.
+  unfold create_decide. destruct (snd old && (fst old <? rev)) eqn:E; simpl; [|lia].
+  apply andb_true_iff in E. destruct E as [_ E]. apply N.ltb_lt in E. exact E.
+Qed.
+
+Ltac thr_case Ht :=
+  apply kinv_set_thr; [assumption| rewrite Ht; try reflexivity | | rewrite ?Ht; simpl; try (intros ? ?; assumption); try discriminate].
+
+Lemma kinv_engine cidx0 s t e : kinv s -> kinv (step_engine cidx0 s t e).
+Proof.
+  intros I. unfold step_engine.
+  pose proof (ki_local s I t) as L.
+  destruct (thr s t) as [ |w k v|w k v rev second|w k v rev|w k v rev old|k v prev|k v prev rev|k exp|k exp e0
+                         |k exp oval orev|k exp rev oval orev|k prev|k prev v|k prev v rev|w k rev r old|w k rev old|r] eqn:Ht;
+    try exact I; simpl in L.
+  - (* PCreatePut *)
+    destruct e.
+    + destruct (k_idx (kv s k)) as [old|] eqn:Ei.
+      * destruct second; [|destruct cidx0].
+        -- apply kinv_set_thr; auto; rewrite ?Ht; simpl; auto; try lia; discriminate.
+        -- apply kinv_set_thr; auto; rewrite ?Ht; simpl.
+           ++ apply create_decide_rev.
+           ++ apply create_decide_local.
+           ++ intros r Hr. apply create_decide_commit in Hr. subst. reflexivity.
+        -- apply kinv_set_thr; auto; rewrite ?Ht; simpl; auto.
+      * apply kinv_apply; auto; try (rewrite ?Ht; reflexivity); try discriminate.
+        -- rewrite Ei. exact Logic.I.
+        -- simpl. lia.
+    + apply kinv_set_thr; auto; rewrite ?Ht; simpl; auto; try lia; discriminate.
+    + destruct second; apply kinv_set_thr; auto; rewrite ?Ht; simpl; auto; try lia; discriminate.
+  - (* PCreateGet *)
+    destruct e; try exact I.
+    + destruct (k_idx (kv s k)) as [old|] eqn:Ei.
+      * apply kinv_set_thr; auto; rewrite ?Ht; simpl.
+        -- apply create_decide_rev.
+        -- apply create_decide_local.
+        -- intros r Hr. apply create_decide_commit in Hr. subst. reflexivity.
+      * apply kinv_set_thr; auto; rewrite ?Ht; simpl; auto.
+    + apply kinv_set_thr; auto; rewrite ?Ht; simpl; auto; try lia; discriminate.
+  - (* PCreateCas *)
+    destruct e.
+    + destruct (idx_is (kv s k) (old, true)) eqn:Ei.
+      * apply idx_is_true in Ei.
+        apply kinv_apply; auto; try (rewrite ?Ht; reflexivity); try discriminate.
+        -- rewrite Ei. simpl. exact L.
+        -- simpl. lia.
+      * apply kinv_set_thr; auto; rewrite ?Ht; simpl; auto; try lia; discriminate.
+    + apply kinv_set_thr; auto; rewrite ?Ht; simpl; auto; try lia; discriminate.
+    + apply kinv_set_thr; auto; rewrite ?Ht; simpl; auto; try lia; discriminate.
+  - (* PUpdateCommit *)
+    destruct e.
+    + destruct (idx_is (kv s k) (prev, false)) eqn:Ei.
+      * apply idx_is_true in Ei.
+        apply kinv_apply; auto; try (rewrite ?Ht; reflexivity); try discriminate.
+        -- rewrite Ei. simpl.
+           (* the new revision is not stored anywhere, the expected one is *)
+           destruct (ki_idx s I k prev false Ei) as [[v0 [Hin _]] _].
+           assert (prev <> rev) by (eapply (ki_fresh s I t rev); [rewrite Ht; reflexivity|exact Hin]).
+           lia.
+        -- simpl. lia.
+      * apply kinv_set_thr; auto; rewrite ?Ht; simpl; auto; try lia; discriminate.
+    + apply kinv_set_thr; auto; rewrite ?Ht; simpl; auto; try lia; discriminate.
+    + apply kinv_set_thr; auto; rewrite ?Ht; simpl; auto; try lia; discriminate.
+  - (* PDeleteGet *)
+    destruct e; try exact I.
+    + destruct (get_latest (kv s k) EnvOk) as [val mr| |] eqn:Eg;
+        apply kinv_set_thr; auto; rewrite ?Ht; simpl; auto; try discriminate.
+      apply get_latest_ok in Eg. eapply (ki_le s I); eauto.
+    + simpl. apply kinv_set_thr; auto; rewrite ?Ht; simpl; auto; discriminate.
+  - (* PDeleteCommit *)
+    destruct L as [-> Hlt].
+    destruct e.
+    + destruct (idx_is (kv s k) (orev, false)) eqn:Ei.
+      * apply idx_is_true in Ei.
+        apply kinv_apply; auto; try (rewrite ?Ht; reflexivity); try discriminate.
+        -- rewrite Ei. simpl. exact Hlt.
+        -- simpl. lia.
+      * apply kinv_set_thr; auto; rewrite ?Ht; simpl; auto; try lia; discriminate.
+    + apply kinv_set_thr; auto; rewrite ?Ht; simpl; auto; try lia; discriminate.
+    + apply kinv_set_thr; auto; rewrite ?Ht; simpl; auto; try lia; discriminate.
+  - (* PRwGet *)
+    destruct e; try exact I.
+    + destruct (newest (k_vers (kv s k))) as [[r0 v0]|] eqn:En.
+      * destruct ((match v0 with [] => true | _ => false end) || negb (r0 =? prev)) eqn:Ec.
+        -- apply kinv_set_thr; auto; rewrite ?Ht; simpl; auto; discriminate.
+        -- apply kinv_set_thr; auto; rewrite ?Ht; simpl; auto; try discriminate.
+           apply orb_false_iff in Ec. destruct Ec as [_ Ec]. apply negb_false_iff, N.eqb_eq in Ec. subst r0.
+           apply newest_In in En. eapply (ki_le s I); eauto.
+      * apply kinv_set_thr; auto; rewrite ?Ht; simpl; auto; discriminate.
+    + apply kinv_set_thr; auto; rewrite ?Ht; simpl; auto; discriminate.
+  - (* PRwCommit *)
+    destruct e.
+    + destruct (idx_is (kv s k) (prev, beqb v tombstone)) eqn:Ei.
+      * apply idx_is_true in Ei.
+        apply kinv_apply; auto; try (rewrite ?Ht; reflexivity); try discriminate.
+        -- rewrite Ei. simpl. exact L.
+        -- intros Hb. apply beqb_eq in Hb. exact Hb.
+        -- simpl. lia.
+      * apply kinv_set_thr; auto; rewrite ?Ht; simpl; auto; try lia; discriminate.
+    + apply kinv_set_thr; auto; rewrite ?Ht; simpl; auto; try lia; discriminate.
+    + apply kinv_set_thr; auto; rewrite ?Ht; simpl; auto; try lia; discriminate.
+  - (* PFailGet *)
+    destruct e; try exact I.
+    + destruct w; destruct (get_latest (kv s k) EnvOk) as [val mr| |] eqn:Eg;
+        apply kinv_set_thr; auto; rewrite ?Ht; simpl; auto; try discriminate; try lia;
+        destruct old; simpl in *; auto.
+    + destruct w; simpl; apply kinv_set_thr; auto; rewrite ?Ht; simpl; auto; try discriminate;
+        destruct old; simpl in *; auto.
+Qed.
+
+Lemma kinv_invoke s t q : kinv s -> kinv (step_invoke s t q).
+Proof.
+  intros I. unfold step_invoke. destruct (thr s t) eqn:Ht; try exact I.
+  match goal with |- kinv {| rs := _; kv := _; thr := thr (set_thr s t ?p); cur := _; seen := _; log := _ |} =>
+    apply (kinv_ext (set_thr s t p)); try reflexivity;
+    apply kinv_set_thr; [exact I|rewrite Ht| |]
+  end.
+  - destruct q; simpl; try reflexivity. destruct (prev =? 0); reflexivity.
+  - destruct q; simpl; auto. destruct (prev =? 0); simpl; auto.
+  - intros r. destruct q; simpl; try discriminate. destruct (prev =? 0); discriminate.
+Qed.
+
+Lemma kinv_return s t : kinv s -> kinv (step_return s t).
+Proof.
+  intros I. unfold step_return. destruct (thr s t) eqn:Ht; try exact I.
+  apply (kinv_ext (set_thr s t PIdle)); try reflexivity.
+  apply kinv_set_thr; [exact I|rewrite Ht; reflexivity|exact Logic.I|discriminate].
+Qed.
+
+Lemma drift_false prev rev : drift prev rev = false -> prev <= rev.
+Proof.
+  unfold drift. intros H. apply andb_false_iff in H. destruct H as [H|H].
+  - apply N.ltb_ge in H. lia.
+  - apply N.ltb_ge in H. exact H.
+Qed.
+
+Lemma kinv_deal_step s t : kinv s -> rpanic (rs s) = false -> kinv (step_deal s t).
+Proof.
+  intros I Hp. unfold step_deal.
+  pose proof (ki_local s I t) as L.
+  assert (Hd : dealt (rstep (rs s) (RDeal t)) = dealt (rs s) + 1) by (rewrite rstep_deal by exact Hp; reflexivity).
+  destruct (thr s t) eqn:Ht; try exact I; simpl in L;
+    destruct (do_deal s t) as [s1 rev] eqn:Ed;
+    assert (Es1 : s1 = fst (do_deal s t)) by (rewrite Ed; reflexivity);
+    assert (Erev : rev = dealt (rs s) + 1) by (unfold do_deal in Ed; injection Ed as _ <-; exact Hd);
+    clear Ed; subst s1 rev.
+  all: repeat match goal with |- kinv (if ?c then _ else _) => destruct c eqn:? end.
+  all: apply kinv_deal; auto; try (rewrite Ht; reflexivity); simpl; auto; try lia.
+  all: try (apply drift_false; assumption).
+Qed.
+
+Lemma rs_observe s : rs (observe s) = rs s. Proof. reflexivity. Qed.
+
+Lemma kinv_observe s : kinv s -> kinv (observe s).
+Proof. apply kinv_ext; reflexivity. Qed.
+
+Lemma kinv_step cidx0 s l : kinv s -> kinv (kstep cidx0 s l).
+Proof.
+  intros I. unfold kstep. destruct (rpanic (rs s)) eqn:Hp; [exact I|].
+  apply kinv_observe. destruct l as [t q|t|t e|t|t|].
+  - apply kinv_invoke, I.
+  - apply kinv_deal_step; assumption.
+  - apply kinv_engine, I.
+  - unfold step_notify. destruct (thr s t) eqn:Ht; try exact I.
+    destruct (kinv_notify s t _ _ _ _ _ I Hp Ht) as [[Hpn K]|[Hpn K]]; cbv zeta in *; rewrite Hpn; exact K.
+  - apply kinv_return, I.
+  - unfold step_seq. destruct (seq_ready (rs s)) eqn:Hr; [|exact I]. apply kinv_set_rs_seq; assumption.
+Qed.
+
+Lemma kinv_run cidx0 ls : forall s, kinv s -> kinv (krun cidx0 ls s).
+Proof. induction ls as [|l ls IH]; intros s I; simpl; [exact I|]. apply IH, kinv_step, I. Qed.
+
+(* well-formed initial stores: never existed / live / deleted / deleted-and-compacted, revisions at most d0 *)
+Definition wf_store (d0 : N) (store : key -> kstate) : Prop :=
+  forall k,
+    (forall r v, In (r, v) (k_vers (store k)) -> r <= d0) /\
+    (forall r f, k_idx (store k) = Some (r, f) ->
+       (exists v, In (r, v) (k_vers (store k)) /\ (f = true -> v = tombstone)) /\
+       (forall r' v', In (r', v') (k_vers (store k)) -> r' <= r)).
+
+Lemma kinv_init d0 store : wf_store d0 store -> kinv (kinit d0 store).
+Proof.
+  intros W. constructor; simpl; auto; try discriminate.
+  - apply rloginv_init.
+  - intros k. apply (proj1 (W k)).
+  - intros k. apply (proj2 (W k)).
+Qed.
+
+Theorem kinv_reachable cidx0 ls d0 store : wf_store d0 store -> kinv (krun cidx0 ls (kinit d0 store)).
+Proof. intros W. apply kinv_run, kinv_init, W. Qed.
